@@ -87,6 +87,7 @@ def c19_part(rep, st, tier):
     _run(rep, tier, 'C19')
     from checks import extglue
     extglue.run(rep, st, tier)
+    extglue.run_getters(rep, st, tier)
 
 
 REGEN = '''
